@@ -1,3 +1,4 @@
 //! Generators: structure-aware fault operators, texts, ASTs.
 pub mod faults;
 pub mod faults_container;
+pub mod faults_struct;
